@@ -2,7 +2,7 @@ import S3V.Base.Bytes
 import S3V.Model.DtoText
 import S3V.Model.DtoCivil
 /-!
-# Model of `s3s::dto::Timestamp` (crates/s3s/src/dto/timestamp.rs, after commit b76964b)
+# Model of `s3s::dto::Timestamp` (crates/s3s/src/dto/timestamp.rs, after commits b76964b and 4f99c94)
 
 and of the parts of `time` 0.3.41 it calls:
 * `OffsetDateTime::parse(s, &Rfc3339)` = `Rfc3339::parse_offset_date_time` (parsing/parsable.rs:611),
@@ -228,41 +228,86 @@ def fracMul : Nat → Option Nat
   | 1 => some 100000000 | 2 => some 10000000 | 3 => some 1000000 | 4 => some 100000 | 5 => some 10000
   | 6 => some 1000 | 7 => some 100 | 8 => some 10 | 9 => some 1 | _ => none
 
-/-- `OffsetDateTime::from_unix_timestamp_nanos` for a non-negative argument -/
-def epochFromNanos (nanos : Nat) : Option Ts :=
-  if ((nanos / 1000000000 : Nat) : Int) > unixMax then none
-  else some ⟨((nanos / 1000000000 : Nat) : Int), nanos % 1000000000, 0⟩
+/-- `OffsetDateTime::from_unix_timestamp_nanos`: seconds = `div_floor(nanos, 10^9)` must lie in the
+    range of `from_unix_timestamp`, nanosecond = `nanos.rem_euclid(10^9)`; the offset is UTC
+    (`/` and `%` on `Int` are the floor / Euclidean operations for a positive divisor) -/
+def epochFromNanos (nanos : Int) : Option Ts :=
+  let secs := nanos / 1000000000
+  if secs < unixMin || secs > unixMax then none
+  else some ⟨secs, (nanos % 1000000000).toNat, 0⟩
 
-def parseEpochSeconds (s : Bytes) : Option Ts :=
-  match splitOnce 46 s with
+/-- the sign step of the `EpochSeconds` arm (after commit 4f99c94):
+    `match s.strip_prefix('-') { Some(t) if t.starts_with(ascii digit) => (true, t), Some(_) => Err, None => (false, s) }` -/
+def epochSign (s : Bytes) : Option (Bool × Bytes) :=
+  match s with
+  | [] => some (false, s)
+  | c :: t =>
+    if c = 45 then
+      match t with
+      | [] => none
+      | d :: _ => if isDigit d then some (true, t) else none
+    else some (false, s)
+
+/-- `<u64 secs>[.<u32 fraction of 1–9 bytes>]` : whole seconds and nanoseconds of the fraction -/
+def epochSecsFrac (t : Bytes) : Option (Nat × Nat) :=
+  match splitOnce 46 t with
   | some (secs, frac) =>
-    match parseUnsignedStr 18446744073709551615 secs with
+    match parseUnsignedStr 4294967295 frac with
     | none => none
-    | some secs =>
-      if secs > 9223372036854775807 then none else
-      match parseUnsignedStr 4294967295 frac with
+    | some val =>
+      match fracMul frac.length with
       | none => none
-      | some val =>
-        match fracMul frac.length with
+      | some mul =>
+        match parseUnsignedStr 18446744073709551615 secs with
         | none => none
         -- `val * mul` is a u32 product (it cannot overflow: val < 10^k, mul = 10^(9-k))
-        | some mul => epochFromNanos (secs * 1000000000 + (val * mul) % 4294967296)
+        | some secs => some (secs, (val * mul) % 4294967296)
   | none =>
-    match parseUnsignedStr 18446744073709551615 s with
+    match parseUnsignedStr 18446744073709551615 t with
     | none => none
-    | some secs =>
-      if secs > 9223372036854775807 then none
-      else if (secs : Int) > unixMax then none
-      else some ⟨(secs : Int), 0, 0⟩
+    | some secs => some (secs, 0)
 
-def fmtInt (i : Int) : Bytes := (if i < 0 then [45] else []) ++ fmtDec i.natAbs
+/-- `Timestamp::parse(EpochSeconds, s)` after commit 4f99c94: optional `-` (only before a digit),
+    `u64::from_str` seconds, optional `.` + `u32::from_str` fraction of 1–9 bytes (both `from_str`
+    accept a leading `+`), `i64::try_from(secs)`, the nanosecond count negated when the sign was
+    there, `from_unix_timestamp_nanos` -/
+def parseEpochSeconds (s : Bytes) : Option Ts :=
+  match epochSign s with
+  | none => none
+  | some (negative, t) =>
+    match epochSecsFrac t with
+    | none => none
+    | some (secs, fracNanos) =>
+      if secs > 9223372036854775807 then none else
+      let nanos : Int := (secs : Int) * 1000000000 + (fracNanos : Int)
+      epochFromNanos (if negative then -nanos else nanos)
 
-/-- the text `write!(w, "{ts}")` produces when the instant is a whole number of seconds
-    (`secs as f64` is exact below 2^53 and `Display` prints an integral `f64` without a fraction);
-    a fractional instant goes through `f64` arithmetic and shortest-digits printing, which this
-    (proof-side) model does not describe: `none` here means "not modelled", not "error" -/
-def formatEpochWhole (t : Ts) : Option Bytes :=
-  if t.nanos = 0 then some (fmtInt t.unix) else none
+/-- `format!("{nanos:09}")` for `nanos < 10^9` -/
+def pad9 (n : Nat) : Bytes :=
+  [digitChar (n / 100000000 % 10), digitChar (n / 10000000 % 10), digitChar (n / 1000000 % 10),
+   digitChar (n / 100000 % 10), digitChar (n / 10000 % 10), digitChar (n / 1000 % 10),
+   digitChar (n / 100 % 10), digitChar (n / 10 % 10), digitChar (n % 10)]
+
+/-- `str::trim_end_matches('0')` -/
+def trimEndZeros : Bytes → Bytes
+  | [] => []
+  | c :: r =>
+    let r' := trimEndZeros r
+    if r'.isEmpty && c == 48 then [] else c :: r'
+
+/-- `Timestamp::format(EpochSeconds)` after commit 4f99c94: exact decimal text of
+    `unix_timestamp_nanos()` = `unix * 10^9 + nanos` (an `i128`; the offset plays no part):
+    `-` when it is negative, `abs / 10^9`, and — unless `abs % 10^9` is zero — `.` and its nine
+    digits without the trailing zeros. The arm has no error path: the result is always `some`
+    (the `Option` keeps the shape of the other two format arms). -/
+def formatEpochSeconds (t : Ts) : Option Bytes :=
+  let val : Int := t.unix * 1000000000 + (t.nanos : Int)
+  let sign : Bytes := if val < 0 then [45] else []
+  let abs := val.natAbs
+  let secs := abs / 1000000000
+  let nanos := abs % 1000000000
+  if nanos = 0 then some (sign ++ fmtDec secs)
+  else some (sign ++ fmtDec secs ++ 46 :: trimEndZeros (pad9 nanos))
 
 def Ts.parse : TsFormat → Bytes → Option Ts
   | .dateTime => parseRfc3339
